@@ -14,7 +14,7 @@ Open Scope Z_scope.
    [wf_op]: senders are not the module account, the LP denomination is not ukex, and the creation bond of a
    holder of the bond-free creation permission is neither negative nor in a foreign denomination (the two
    inputs outside the modelled domain).  No restriction on names, amounts, order, users or block times. *)
-Theorem C20_current_tree_is_fixed : fixed (mkVariant false false false true true) /\ fixed repaired.
+Theorem C20_current_tree_is_fixed : fixed (mkVariant false false false false false true) /\ fixed repaired.
 Proof. exact (conj current_fixed repaired_fixed). Qed.
 Print Assumptions C20_current_tree_is_fixed.
 
